@@ -36,25 +36,26 @@ Lemma node_of_mac2 cx ps p0 ws name post args sp l :
   Some (NMacro p0 (snd ar) (ps_mode ps) name post (Some (map a_spec l, fst ar))).
 Proof. intros A B. cbn [node_of2]. rewrite A, B. reflexivity. Qed.
 
-Lemma ok_item_grp2 cx ps ws b tr fol :
-  ok_item2 cx ps (Grp2 ws b tr) fol = ws_ok ws && ws_ok tr && ok_items2 cx ps b (tr ++ 125%N :: fol).
+Lemma ok_item_grp2 cx ps ex ws b tr fol :
+  ok_item2 cx ps ex (Grp2 ws b tr) fol = ws_ok ws && ws_ok tr && ok_items2 cx ps [] b (tr ++ 125%N :: fol).
 Proof. reflexivity. Qed.
 
-Lemma ok_item_math2 cx ps ws k b tr fol :
-  ok_item2 cx ps (Math2 ws k b tr) fol =
+Lemma ok_item_math2 cx ps ex ws k b tr fol :
+  ok_item2 cx ps ex (Math2 ws k b tr) fol =
   negb (f_in_math (ps_f ps)) && ws_ok ws && ws_ok tr
-  && ok_items2 cx (ps_enter_math ps (Some (m_open k))) b (tr ++ m_close k ++ fol)
+  && ok_items2 cx (ps_enter_math ps (Some (m_open k))) [] b (tr ++ m_close k ++ fol)
   && match k with
      | MDollar => match unparse_items2 b ++ tr with [] => false | c :: _ => negb (N.eqb c 36) end
      | _ => true
      end.
 Proof. reflexivity. Qed.
 
-Lemma ok_item_mac2 cx ps ws name post args fol sp l :
+Lemma ok_item_mac2 cx ps ex ws name post args fol sp l :
   get_macro_spec cx name = Some sp -> sp_args sp = APStd l ->
-  ok_item2 cx ps (Mac2 ws name post args) fol =
+  ok_item2 cx ps ex (Mac2 ws name post args) fol =
   ws_ok ws && ws_ok post && name_ok name post
-  && (ok_args2 cx ps args l fol && mac_follow_ok name post (hd_error (unparse_items2 args ++ fol))).
+  && (ok_args2 cx ps args l fol && slots_ok (nabs args) (1 + length name)
+      && mac_follow_ok name post (hd_error (unparse_items2 args ++ fol))).
 Proof. intros A B. cbn [ok_item2]. rewrite A, B. reflexivity. Qed.
 
 Lemma node_of_env2 cx ps p0 ws bws name args b tr ews sp l :
@@ -68,13 +69,14 @@ Lemma node_of_env2 cx ps p0 ws bws name args b tr ews sp l :
              (Some (gen_nodelist (snd ar) (cs_acc (close_state bps (fst r) tr (snd r)))))).
 Proof. intros A B. cbn [node_of2]. rewrite A, B. reflexivity. Qed.
 
-Lemma ok_item_env2 cx ps ws bws name args b tr ews fol sp l :
+Lemma ok_item_env2 cx ps ex ws bws name args b tr ews fol sp l :
   get_env_spec cx name = Some sp -> sp_args sp = APStd l ->
-  ok_item2 cx ps (Env2 ws bws name args b tr ews) fol =
+  ok_item2 cx ps ex (Env2 ws bws name args b tr ews) fol =
   ws_ok ws && forallb is_space bws && forallb is_space ews && ws_ok tr
   && envname_ok name && f_en_envs (ps_f ps)
   && (ok_args2 cx ps args l (unparse_items2 b ++ tr ++ end_str ews name ++ fol)
-      && ok_items2 cx (env_body_state ps sp) b (tr ++ end_str ews name ++ fol)).
+      && slots_ok (nabs args) (length (begin_str bws name))
+      && ok_items2 cx (env_body_state ps sp) [] b (tr ++ end_str ews name ++ fol)).
 Proof. intros A B. cbn [ok_item2]. rewrite A, B. reflexivity. Qed.
 
 Lemma node_of_spc2 cx ps p0 ws chars args sp l :
@@ -84,19 +86,26 @@ Lemma node_of_spc2 cx ps p0 ws chars args sp l :
   Some (NSpecials p0 (snd ar) (ps_mode ps) chars (Some (map a_spec l, fst ar))).
 Proof. intros A B. cbn [node_of2]. rewrite A, B. reflexivity. Qed.
 
-Lemma ok_item_spc2 cx ps ws chars args fol sp l :
+Lemma ok_item_spc2 cx ps ex ws chars args fol sp l :
   get_specials_spec cx chars = Some sp -> sp_args sp = APStd l ->
-  ok_item2 cx ps (Spc2 ws chars args) fol =
-  ws_ok ws && match chars with c :: _ => plain_start c | [] => false end
+  ok_item2 cx ps ex (Spc2 ws chars args) fol =
+  ws_ok ws && match chars with c :: _ => plain_start c && negb (mem_c c ex) | [] => false end
   && match test_specials (map fst (cx_specials cx)) (chars ++ unparse_items2 args ++ fol) None with
      | Some sc => str_eqb sc chars
      | None => false
      end
-  && ok_args2 cx ps args l fol.
+  && (ok_args2 cx ps args l fol && slots_ok (nabs args) (length chars)).
 Proof. intros A B. cbn [ok_item2]. rewrite A, B. reflexivity. Qed.
 
-Lemma ok_items_cons2 cx ps j r fh :
-  ok_items2 cx ps (j :: r) fh = ok_item2 cx ps j (unparse_items2 r ++ fh) && ok_items2 cx ps r fh.
+Lemma node_of_brk2 cx ps p0 ws oc cc b tr :
+  node_of2 cx ps p0 (Brk2 ws oc cc b tr) =
+  let r := absorb2 cx ps (S p0) cs_empty b in
+  Some (NGroup p0 (snd r + length tr + 1) (ps_mode ps) [oc] [cc]
+               (Some (gen_nodelist (S p0) (cs_acc (close_state ps (fst r) tr (snd r)))))).
+Proof. reflexivity. Qed.
+
+Lemma ok_items_cons2 cx ps ex j r fh :
+  ok_items2 cx ps ex (j :: r) fh = ok_item2 cx ps ex j (unparse_items2 r ++ fh) && ok_items2 cx ps ex r fh.
 Proof. reflexivity. Qed.
 
 Lemma absorb_cons2 cx ps p st j r :
@@ -128,6 +137,8 @@ Fixpoint isize2 (i : item2) : nat :=
   | Par2 _ _ => 1
   | Env2 _ _ _ a b _ _ => S (fold_right (fun i n => isize2 i + n) 0 a + fold_right (fun i n => isize2 i + n) 0 b)
   | Spc2 _ _ a => S (fold_right (fun i n => isize2 i + n) 0 a)
+  | Brk2 _ _ _ b _ => S (fold_right (fun i n => isize2 i + n) 0 b)
+  | Abs2 => 1
   end.
 Definition lsize2 (l : list item2) := fold_right (fun i n => isize2 i + n) 0 l.
 Lemma isize_pos2 i : 1 <= isize2 i. Proof. destruct i; cbn; lia. Qed.
@@ -140,6 +151,66 @@ Proof. unfold ilen2. cbn [unparse_item2]. rewrite app_length. cbn [length]. rewr
 Lemma ilen_cmt2 ws text post : ilen2 (Cmt2 ws text post) = length ws + 1 + length text + length post.
 Proof. unfold ilen2. cbn [unparse_item2]. rewrite app_length. cbn [length]. rewrite app_length. lia. Qed.
 
+(** * Frames: the state a collector runs in, and the state its children are parsed in *)
+Definition Frame (cx : context) (ex : str) (cps ps : pstate) : Prop :=
+  Std cx ps /\
+  ((ex = [] /\ cps = ps) \/
+   (exists oc cc, ex = [oc; cc] /\ delim_ok oc cc = true /\ cps = brk_state ps oc cc)).
+
+Lemma frame_std cx ps : Std cx ps -> Frame cx [] ps ps.
+Proof. intros H. split; [exact H|]. left. split; reflexivity. Qed.
+
+Lemma frame_brk cx ps oc cc : Std cx ps -> delim_ok oc cc = true -> Frame cx [oc; cc] (brk_state ps oc cc) ps.
+Proof. intros H D. split; [exact H|]. right. exists oc, cc. repeat split. exact D. Qed.
+
+Lemma frame_mode cx ex cps ps : Frame cx ex cps ps -> ps_mode cps = ps_mode ps.
+Proof.
+  intros [SD [[_ ->]|(oc & cc & _ & D & ->)]]; [reflexivity|]. apply (brk_mode cx ps oc cc SD D).
+Qed.
+
+Lemma frame_good cx ex cps ps : Frame cx ex cps ps -> Good cps.
+Proof.
+  intros [SD [[_ ->]|(oc & cc & _ & D & ->)]]; [exact (proj1 SD)|]. apply (brk_good cx ps oc cc SD).
+Qed.
+
+Lemma frame_in_math cx ex cps ps : Frame cx ex cps ps -> f_in_math (ps_f cps) = f_in_math (ps_f ps).
+Proof. intros F. exact (f_equal in_math (frame_mode cx ex cps ps F)). Qed.
+
+Lemma frame_peek cx ex cps ps s pos w rest : Frame cx ex cps ps ->
+  skipn pos s = w ++ rest -> forallb is_space w = true -> hd_not is_space rest ->
+  (Nat.leb 2 (count_c 10 w) = true \/ hd_not (fun c => mem_c c ex) rest) ->
+  impl_peek cps s pos = impl_peek ps s pos.
+Proof.
+  intros [SD [[_ ->]|(oc & cc & -> & D & ->)]] SK W HS C; [reflexivity|].
+  apply (impl_peek_brk cx ps oc cc SD D s pos w rest SK W HS).
+  destruct C as [C|C]; [left; exact C|right]. destruct rest as [|c r]; [exact I|].
+  cbn [hd_not mem_c existsb] in C |- *. rewrite orb_false_r in C. exact C.
+Qed.
+
+Lemma frame_peek1 cx ex cps ps s pos ws c rest : Frame cx ex cps ps ->
+  skipn pos s = ws ++ c :: rest -> ws_ok ws = true -> is_space c = false -> mem_c c ex = false ->
+  impl_peek cps s pos = impl_peek ps s pos.
+Proof.
+  intros F SK W SP M. apply (frame_peek cx ex cps ps s pos ws (c :: rest) F SK (proj1 (ws_ok_split _ W)) SP).
+  right. exact M.
+Qed.
+
+(** the characters that start the other token kinds are never delimiters of a frame *)
+Lemma frame_ex_special cx ex cps ps c : Frame cx ex cps ps ->
+  mem_c c [92;36;37;123;125]%N = true -> mem_c c ex = false.
+Proof.
+  intros [_ [[-> _]|(oc & cc & -> & D & _)]] M; [reflexivity|].
+  destruct (delim_ok_facts oc cc D) as (PO & PC & _).
+  unfold plain_start in PO, PC. apply andb_true_iff in PO. apply andb_true_iff in PC.
+  destruct PO as [_ PO]. destruct PC as [_ PC]. apply negb_true_iff in PO. apply negb_true_iff in PC.
+  cbn [mem_c existsb] in *.
+  repeat (apply orb_false_iff in PO; destruct PO as [? PO]).
+  repeat (apply orb_false_iff in PC; destruct PC as [? PC]).
+  repeat (apply orb_true_iff in M; destruct M as [M|M]; [apply N.eqb_eq in M; subst c;
+          rewrite (N.eqb_sym _ oc), (N.eqb_sym _ cc); repeat match goal with H : _ = false |- _ => rewrite H end; reflexivity|]).
+  discriminate.
+Qed.
+
 Section Sim.
   Variable s : str.
   Variable cx : context.
@@ -149,22 +220,32 @@ Section Sim.
   Proof. intros H NR L. eapply run_mono; eassumption. Qed.
 
   (** ** text *)
-  Lemma chars_sim2 ps o r k : Std cx ps -> opts_ok ps o -> r <> OutOfFuel ->
-    forall cs st q pre pos fol,
-    forallb (inert cx) cs = true -> skipn pos s = cs ++ fol ->
-    R k (TCollect ps o (push_pending st (pre ++ cs) q) (pos + length cs)) = r ->
-    R (k + length cs) (TCollect ps o (push_pending st pre q) pos) = r.
+  Definition text_char (ex : str) (c : N) : bool := inert cx c && negb (mem_c c ex).
+
+  Lemma text_char_tok ex cps ps pos ws c rest : Frame cx ex cps ps ->
+    ws_ok ws = true -> text_char ex c = true -> skipn pos s = ws ++ c :: rest ->
+    impl_peek cps s pos = TokOk (mk TkChar [c] (pos + length ws) (S (pos + length ws)) ws []).
   Proof.
-    intros SD OK NR. pose proof (std_view_of cx ps SD) as V.
+    intros F W TC SK. pose proof F as [SD _]. pose proof (std_view_of cx ps SD) as V.
+    unfold text_char in TC. apply andb_true_iff in TC. destruct TC as [I1 I2]. apply negb_true_iff in I2.
+    destruct (inert_facts cx c I1) as (SP & _).
+    rewrite (frame_peek1 cx ex cps ps s pos ws c rest F SK W SP I2).
+    rewrite (impl_peek_dispatch ps s pos ws c rest W SK SP). apply (dispatch_char cx ps V). exact I1.
+  Qed.
+
+  Lemma chars_sim2 ex cps ps o r k : Frame cx ex cps ps -> opts_okF cps ps o -> r <> OutOfFuel ->
+    forall cs st q pre pos fol,
+    forallb (text_char ex) cs = true -> skipn pos s = cs ++ fol ->
+    R k (TCollect cps o (push_pending st (pre ++ cs) q) (pos + length cs)) = r ->
+    R (k + length cs) (TCollect cps o (push_pending st pre q) pos) = r.
+  Proof.
+    intros F OK NR.
     induction cs as [|c cs IH]; intros st q pre pos fol IN SK H.
     - cbn [length] in *. rewrite app_nil_r, Nat.add_0_r in H. rewrite Nat.add_0_r. exact H.
     - cbn [forallb] in IN. apply andb_true_iff in IN. destruct IN as [I1 I2].
       cbn [length]. replace (k + S (length cs)) with (S (k + length cs)) by lia.
-      destruct (inert_facts cx c I1) as (SP & _).
-      assert (T : impl_peek ps s pos = TokOk (mk TkChar [c] (pos + length (@nil N)) (S (pos + length (@nil N))) [] [])).
-      { rewrite (impl_peek_dispatch ps s pos [] c (cs ++ fol) eq_refl SK SP).
-        apply (dispatch_char cx ps V). exact I1. }
-      apply (rule_char s cx _ ps o _ pos [] c r OK T).
+      pose proof (text_char_tok ex cps ps pos [] c (cs ++ fol) F eq_refl I1 SK) as T.
+      apply (rule_charF s cx _ cps ps o _ pos [] c r OK T).
       cbn [length app]. rewrite Nat.add_0_r, push_pending_twice.
       apply (IH st q (pre ++ [c]) (S pos) fol I2).
       + apply (skipn_shift s [c] (cs ++ fol)) in SK.
@@ -173,20 +254,17 @@ Section Sim.
         exact H.
   Qed.
 
-  Lemma text_sim2 ps o r k st pos ws c cs fol : Std cx ps -> opts_ok ps o -> r <> OutOfFuel ->
-    ws_ok ws = true -> forallb (inert cx) (c :: cs) = true -> skipn pos s = ws ++ (c :: cs) ++ fol ->
-    R k (TCollect ps o (push_pending st (ws ++ c :: cs) pos) (pos + length (ws ++ c :: cs))) = r ->
-    R (k + 8 * length (ws ++ c :: cs)) (TCollect ps o st pos) = r.
+  Lemma text_sim2 ex cps ps o r k st pos ws c cs fol : Frame cx ex cps ps -> opts_okF cps ps o -> r <> OutOfFuel ->
+    ws_ok ws = true -> forallb (text_char ex) (c :: cs) = true -> skipn pos s = ws ++ (c :: cs) ++ fol ->
+    R k (TCollect cps o (push_pending st (ws ++ c :: cs) pos) (pos + length (ws ++ c :: cs))) = r ->
+    R (k + 8 * length (ws ++ c :: cs)) (TCollect cps o st pos) = r.
   Proof.
-    intros SD OK NR W IN SK H. pose proof (std_view_of cx ps SD) as V.
+    intros F OK NR W IN SK H.
     cbn [forallb] in IN. apply andb_true_iff in IN. destruct IN as [I1 I2].
-    destruct (inert_facts cx c I1) as (SP & _).
-    assert (T : impl_peek ps s pos = TokOk (mk TkChar [c] (pos + length ws) (S (pos + length ws)) ws [])).
-    { cbn [app] in SK. rewrite (impl_peek_dispatch ps s pos ws c (cs ++ fol) W SK SP).
-      apply (dispatch_char cx ps V). exact I1. }
+    pose proof (text_char_tok ex cps ps pos ws c (cs ++ fol) F W I1 SK) as T.
     apply (lift (S (k + length cs))); [|exact NR|rewrite app_length; cbn [length]; lia].
-    apply (rule_char s cx _ ps o _ pos ws c r OK T).
-    apply (chars_sim2 ps o r k SD OK NR cs st pos (ws ++ [c]) (S (pos + length ws)) fol I2).
+    apply (rule_charF s cx _ cps ps o _ pos ws c r OK T).
+    apply (chars_sim2 ex cps ps o r k F OK NR cs st pos (ws ++ [c]) (S (pos + length ws)) fol I2).
     - cbn [app] in SK. change (c :: cs ++ fol) with ([c] ++ cs ++ fol) in SK. rewrite app_assoc in SK.
       apply (skipn_shift s (ws ++ [c]) (cs ++ fol)) in SK. rewrite app_length in SK. cbn [length] in SK.
       replace (S (pos + length ws)) with (pos + (length ws + 1)) by lia. exact SK.
@@ -196,17 +274,17 @@ Section Sim.
 
   (** ** the induction hypothesis of the simulation, as a parameter *)
   Definition SimN2 (n : nat) : Prop :=
-    forall l, lsize2 l <= n -> forall ps o st pos fol k r,
-    Std cx ps -> opts_ok ps o -> r <> OutOfFuel ->
-    ok_items2 cx ps l fol = true ->
+    forall l, lsize2 l <= n -> forall ex cps ps o st pos fol k r,
+    Frame cx ex cps ps -> opts_okF cps ps o -> r <> OutOfFuel ->
+    ok_items2 cx ps ex l fol = true ->
     skipn pos s = unparse_items2 l ++ fol ->
-    R k (TCollect ps o (fst (absorb2 cx ps pos st l)) (pos + length (unparse_items2 l))) = r ->
-    R (k + 8 * length (unparse_items2 l)) (TCollect ps o st pos) = r.
+    R k (TCollect cps o (fst (absorb2 cx ps pos st l)) (pos + length (unparse_items2 l))) = r ->
+    R (k + 8 * length (unparse_items2 l)) (TCollect cps o st pos) = r.
 
   (** ** a braced group, from its opening brace *)
   Lemma grp_run2 n : SimN2 n -> forall ps p0 ws b tr rest,
     Std cx ps -> lsize2 b <= n ->
-    ws_ok tr = true -> ok_items2 cx ps b (tr ++ 125%N :: rest) = true ->
+    ws_ok tr = true -> ok_items2 cx ps [] b (tr ++ 125%N :: rest) = true ->
     skipn p0 s = 123%N :: unparse_items2 b ++ tr ++ 125%N :: rest ->
     R (3 + 8 * length (unparse_items2 b)) (TGroup ps (GDStr [123%N]) false false p0)
     = Ok (ONode (node_of2 cx ps p0 (Grp2 ws b tr))) (p0 + 1 + length (unparse_items2 b) + length tr + 1).
@@ -227,7 +305,8 @@ Section Sim.
                  = Ok (OColl (close_state ps (fst A) tr pb)
                              (Some (mk TkBraceClose [125%N] (pb + length tr) (S (pb + length tr)) tr [])) false false)
                       (pb + length tr)).
-    { apply (IH b SZ ps (grp_opts ps) cs_empty (S p0) (tr ++ 125%N :: rest) 1 _ SD (opts_ok_grp ps));
+    { apply (IH b SZ [] ps ps (grp_opts ps) cs_empty (S p0) (tr ++ 125%N :: rest) 1 _ (frame_std cx ps SD)
+                (opts_ok_F ps _ (opts_ok_grp ps)));
         [discriminate|exact OKB|exact SKb|exact S1]. }
     pose proof (rule_general_stop s cx _ ps (grp_opts ps) (S p0) _ _ _ eq_refl eq_refl eq_refl S2) as S3.
     cbn [mk tend] in S3.
@@ -240,11 +319,70 @@ Section Sim.
     reflexivity.
   Qed.
 
+  (** ** a delimited argument [[ … ]], from its leading whitespace *)
+  Lemma opts_okF_brk ps oc cc : Std cx ps -> delim_ok oc cc = true ->
+    opts_okF (brk_state ps oc cc) ps (brk_opts ps oc cc).
+  Proof.
+    intros SD D. destruct (delim_ok_facts oc cc D) as (PO & _).
+    destruct (plain_start_facts oc PO) as (_ & _ & _ & _ & O123 & _).
+    repeat split; [|apply (brk_mode cx ps oc cc SD D)].
+    intros t K. unfold child_state, brk_opts. cbn [g_child].
+    destruct (tokkind_eqb (tk t) TkBraceOpen) eqn:E; [|reflexivity].
+    assert (KB : tk t = TkBraceOpen) by (destruct (tk t); try discriminate; reflexivity).
+    rewrite (K KB). cbn [str_eqb]. rewrite (N.eqb_sym 123 oc), O123. reflexivity.
+  Qed.
+
+  Lemma brk_run2 n : SimN2 n -> forall ps p0 aws oc cc b tr rest opt aps,
+    Std cx ps -> delim_ok oc cc = true -> lsize2 b <= n ->
+    ws_ok aws = true -> (aps || is_nil aws) = true -> ws_ok tr = true ->
+    ok_items2 cx ps [oc; cc] b (tr ++ cc :: rest) = true ->
+    skipn p0 s = aws ++ oc :: unparse_items2 b ++ tr ++ cc :: rest ->
+    R (3 + 8 * length (unparse_items2 b)) (TGroup ps (GDPair [oc] [cc]) opt aps p0)
+    = Ok (ONode (node_of2 cx ps (p0 + length aws) (Brk2 aws oc cc b tr)))
+         (p0 + length aws + 1 + length (unparse_items2 b) + length tr + 1).
+  Proof.
+    intros IH ps p0 aws oc cc b tr rest opt aps SD D SZ WA AP W OKB SK.
+    destruct (delim_ok_facts oc cc D) as (PO & PC & _).
+    destruct (plain_start_facts oc PO) as (SPO & _). destruct (plain_start_facts cc PC) as (SPC & _).
+    set (gps := brk_state ps oc cc).
+    set (q0 := p0 + length aws).
+    assert (T1 : impl_peek gps s p0 = TokOk (mk TkBraceOpen [oc] q0 (S q0) aws [])).
+    { rewrite (impl_peek_dispatch gps s p0 aws oc _ WA SK SPO). apply (dispatch_brk_open cx ps oc cc SD D). }
+    set (pb := S q0 + length (unparse_items2 b)).
+    assert (SK0 : skipn q0 s = oc :: unparse_items2 b ++ tr ++ cc :: rest) by (apply skipn_shift in SK; exact SK).
+    assert (SKb : skipn (S q0) s = unparse_items2 b ++ tr ++ cc :: rest) by (apply skipn_S_of in SK0; exact SK0).
+    assert (SKc : skipn pb s = tr ++ cc :: rest) by (apply skipn_shift in SKb; exact SKb).
+    assert (T2 : impl_peek gps s pb = TokOk (mk TkBraceClose [cc] (pb + length tr) (S (pb + length tr)) tr [])).
+    { rewrite (impl_peek_dispatch gps s pb tr cc rest W SKc SPC). apply (dispatch_brk_close cx ps oc cc SD D). }
+    set (A := absorb2 cx ps (S q0) cs_empty b).
+    pose proof (opts_okF_brk ps oc cc SD D) as OKF.
+    assert (SM : stop_matches (g_stop (brk_opts ps oc cc))
+                   (mk TkBraceClose [cc] (pb + length tr) (S (pb + length tr)) tr []) = true).
+    { cbn. rewrite N.eqb_refl. reflexivity. }
+    pose proof (rule_stopF s cx 0 gps ps (brk_opts ps oc cc) (fst A) pb _ OKF T2 SM) as S1.
+    cbn [mk tpre tpos] in S1. rewrite Nat.add_sub in S1.
+    assert (S2 : R (1 + 8 * length (unparse_items2 b)) (TCollect gps (brk_opts ps oc cc) cs_empty (S q0))
+                 = Ok (OColl (close_state ps (fst A) tr pb)
+                             (Some (mk TkBraceClose [cc] (pb + length tr) (S (pb + length tr)) tr [])) false false)
+                      (pb + length tr)).
+    { apply (IH b SZ [oc; cc] gps ps (brk_opts ps oc cc) cs_empty (S q0) (tr ++ cc :: rest) 1 _
+                (frame_brk cx ps oc cc SD D) OKF); [discriminate|exact OKB|exact SKb|exact S1]. }
+    pose proof (rule_general_stop s cx _ gps (brk_opts ps oc cc) (S q0) _ _ _ eq_refl eq_refl eq_refl S2) as S3.
+    cbn [mk tend] in S3.
+    pose proof (rule_tgroup_pair s cx _ ps oc cc opt aps p0 aws _ _ T1 AP S3) as S4.
+    replace (3 + 8 * length (unparse_items2 b)) with (S (S (1 + 8 * length (unparse_items2 b)))) by lia.
+    fold q0 in S4. rewrite S4, node_of_brk2. cbn zeta. fold A. rewrite (brk_mode cx ps oc cc SD D).
+    assert (PA : snd A = pb) by (unfold A; rewrite absorb_pos2; reflexivity). rewrite PA.
+    replace (pb + length tr + 1) with (S (pb + length tr)) by lia.
+    replace (q0 + 1 + length (unparse_items2 b) + length tr + 1) with (S (pb + length tr)) by (unfold pb; lia).
+    reflexivity.
+  Qed.
+
   (** ** math, from its opening delimiter *)
   Lemma math_run2 n : SimN2 n -> forall ps p0 ws k b tr rest,
     Std cx ps -> f_in_math (ps_f ps) = false -> lsize2 b <= n ->
     ws_ok tr = true ->
-    ok_items2 cx (ps_enter_math ps (Some (m_open k))) b (tr ++ m_close k ++ rest) = true ->
+    ok_items2 cx (ps_enter_math ps (Some (m_open k))) [] b (tr ++ m_close k ++ rest) = true ->
     (k = MDollar -> hd_not (fun c => N.eqb c 36) (unparse_items2 b ++ tr ++ m_close k ++ rest)) ->
     skipn p0 s = m_open k ++ unparse_items2 b ++ tr ++ m_close k ++ rest ->
     R (3 + 8 * length (unparse_items2 b)) (TMath ps (m_open k) p0)
@@ -289,7 +427,8 @@ Section Sim.
                  = Ok (OColl (close_state mps (fst A) tr pb)
                              (Some (mk (m_tok k) (m_close k) (pb + length tr) (pb + length tr + length (m_close k)) tr []))
                              false false) (pb + length tr)).
-    { apply (IH b SZ mps (math_opts k) cs_empty st0 (tr ++ m_close k ++ rest) 1 _ SD' (opts_ok_math mps k M'));
+    { apply (IH b SZ [] mps mps (math_opts k) cs_empty st0 (tr ++ m_close k ++ rest) 1 _ (frame_std cx mps SD')
+                (opts_ok_F mps _ (opts_ok_math mps k M')));
         [discriminate|exact OKB|exact SKb|exact S1]. }
     pose proof (rule_general_stop s cx _ mps (math_opts k) st0 _ _ _ eq_refl eq_refl eq_refl S2) as S3.
     cbn [mk tend] in S3.
@@ -300,14 +439,13 @@ Section Sim.
     reflexivity.
   Qed.
 
-  (** ** the arguments of a macro call *)
-  Lemma ok_args_length2 ps args fol : forall l, ok_args2 cx ps args l fol = true -> length args = length l.
-  Proof.
-    induction args as [|a args IH]; intros [|spc l] H; try discriminate; [reflexivity|].
-    cbn [ok_args2] in H. apply andb_true_iff in H. destruct H as [_ H]. cbn [length]. f_equal. apply IH. exact H.
-  Qed.
-
+  (** ** lengths *)
   Lemma ilen_grp2 ws b tr : ilen2 (Grp2 ws b tr) = length ws + 1 + length (unparse_items2 b) + length tr + 1.
+  Proof.
+    unfold ilen2, unparse_items2. cbn [unparse_item2]. rewrite app_length. cbn [length].
+    rewrite !app_length. cbn [length]. lia.
+  Qed.
+  Lemma ilen_brk2 ws oc cc b tr : ilen2 (Brk2 ws oc cc b tr) = length ws + 1 + length (unparse_items2 b) + length tr + 1.
   Proof.
     unfold ilen2, unparse_items2. cbn [unparse_item2]. rewrite app_length. cbn [length].
     rewrite !app_length. cbn [length]. lia.
@@ -320,65 +458,24 @@ Section Sim.
   Proof.
     unfold ilen2, unparse_items2. cbn [unparse_item2]. rewrite app_length. cbn [length]. rewrite !app_length. lia.
   Qed.
-
-  Lemma args_run2 n : SimN2 n -> forall args l ps acc pa fol,
-    Std cx ps -> lsize2 args <= n -> ok_args2 cx ps args l fol = true ->
-    skipn pa s = unparse_items2 args ++ fol ->
-    R (1 + 8 * length (unparse_items2 args)) (TArgs ps l acc pa)
-    = Ok (OArgs (Some ([], acc ++ fst (arg_nodes2 cx ps pa args l)))) (pa + length (unparse_items2 args)).
-  Proof.
-    intros IH. induction args as [|a args IHa]; intros [|spc l] ps acc pa fol SD SZ OKA SK; try discriminate.
-    - cbn [unparse_items2 flat_map length arg_nodes2 fst]. rewrite app_nil_r. replace (pa + 0) with pa by lia.
-      reflexivity.
-    - cbn [ok_args2] in OKA. apply andb_true_iff in OKA. destruct OKA as [OKA OKR].
-      apply andb_true_iff in OKA. destruct OKA as [KD OKI].
-      destruct (a_kind spc) as [aps| | |] eqn:AK; try discriminate.
-      destruct a as [|ws b tr| | | | | |]; try discriminate. destruct ws; [|discriminate].
-      set (ps' := apply_adelta ps (a_delta spc)) in *.
-      assert (SD' : Std cx ps') by (apply std_adelta; exact SD).
-      rewrite ok_item_grp2 in OKI. apply andb_true_iff in OKI. destruct OKI as [OKI OKB].
-      apply andb_true_iff in OKI. destruct OKI as [_ W].
-      rewrite lsize_cons2 in SZ. cbn [isize2] in SZ. fold (lsize2 b) in SZ.
-      assert (SK' : skipn pa s = 123%N :: unparse_items2 b ++ tr ++ 125%N :: (unparse_items2 args ++ fol)).
-      { unfold unparse_items2 in *. cbn [flat_map unparse_item2 app] in SK.
-        rewrite <- !app_assoc in SK. cbn [app] in SK. rewrite <- ?app_assoc in SK. exact SK. }
-      assert (TP : forall q, Std cx q -> impl_peek q s pa = TokOk (mk TkBraceOpen [123%N] pa (S pa) [] [])).
-      { intros q SQ. rewrite (impl_peek_dispatch q s pa [] 123%N _ eq_refl SK' space_123). cbn [length].
-        rewrite Nat.add_0_r. apply (dispatch_open cx q (std_view_of cx q SQ)). }
-      pose proof (grp_run2 n IH ps' pa [] b tr (unparse_items2 args ++ fol) SD' ltac:(lia) W OKB SK') as G.
-      pose proof (rule_texpr s cx _ ps' aps aps true pa _ _ (TP _ (std_no_envs cx ps' SD')) G) as G2.
-      pose proof (rule_tstdarg s cx _ ps' aps pa _ _ G2) as G3.
-      set (nd := node_of2 cx ps' pa (Grp2 [] b tr)) in *.
-      set (pe := pa + 1 + length (unparse_items2 b) + length tr + 1) in *.
-      assert (PE : pe = pa + ilen2 (Grp2 [] b tr)) by (rewrite ilen_grp2; cbn [length]; unfold pe; lia).
-      assert (SKr : skipn pe s = unparse_items2 args ++ fol).
-      { change (123%N :: unparse_items2 b ++ tr ++ 125%N :: unparse_items2 args ++ fol)
-          with ([123%N] ++ unparse_items2 b ++ tr ++ [125%N] ++ unparse_items2 args ++ fol) in SK'.
-        apply skipn_shift in SK'. apply skipn_shift in SK'. apply skipn_shift in SK'. apply skipn_shift in SK'.
-        cbn [length] in SK'. exact SK'. }
-      pose proof (IHa l ps (acc ++ [nd]) pe fol SD ltac:(lia) OKR SKr) as A.
-      set (N0 := 6 + 8 * length (unparse_items2 b) + 8 * length (unparse_items2 args)).
-      assert (L : length (unparse_items2 (Grp2 [] b tr :: args)) = ilen2 (Grp2 [] b tr) + length (unparse_items2 args)).
-      { unfold unparse_items2, ilen2. cbn [flat_map]. rewrite app_length. reflexivity. }
-      apply (lift (S N0)); [|discriminate|rewrite L, ilen_grp2; unfold N0; cbn [length]; lia].
-      rewrite <- AK in G3.
-      apply (rule_targs_cons s cx N0 ps spc l acc pa _ nd pe _ (TP ps SD)).
-      + apply (lift _ N0) in G3; [exact G3|discriminate|unfold N0; lia].
-      + apply (lift _ N0) in A; [|discriminate|unfold N0; lia]. rewrite A.
-        cbn [arg_nodes2 fst snd]. fold ps'. fold nd. rewrite <- PE, <- app_assoc. cbn [app].
-        rewrite L, PE. f_equal. lia.
-  Qed.
-
-  (** ** the body of an environment, up to and including [\end{name}] *)
+  Lemma ilen_spc2 ws chars args :
+    ilen2 (Spc2 ws chars args) = length ws + length chars + length (unparse_items2 args).
+  Proof. unfold ilen2, unparse_items2. cbn [unparse_item2]. rewrite !app_length. lia. Qed.
+  Lemma ilen_env2 ws bws name args b tr ews :
+    ilen2 (Env2 ws bws name args b tr ews)
+    = length ws + length (begin_str bws name) + length (unparse_items2 args) + length (unparse_items2 b)
+      + length tr + length (end_str ews name).
+  Proof. unfold ilen2, unparse_items2. cbn [unparse_item2]. rewrite !app_length. lia. Qed.
   Lemma len_end_str ews name : length (end_str ews name) = 1 + 3 + (length ews + 1 + length name + 1).
   Proof. unfold end_str. cbn [length kw_end app]. rewrite app_length. cbn [length]. rewrite app_length. cbn [length]. lia. Qed.
   Lemma len_begin_str bws name : length (begin_str bws name) = 1 + 5 + (length bws + 1 + length name + 1).
   Proof. unfold begin_str. cbn [length kw_begin app]. rewrite app_length. cbn [length]. rewrite app_length. cbn [length]. lia. Qed.
 
+  (** ** the body of an environment, up to and including [\end{name}] *)
   Lemma env_body_run2 n : SimN2 n -> forall bps p b tr ews name rest,
     Std cx bps -> f_en_envs (ps_f bps) = true -> lsize2 b <= n ->
     ws_ok tr = true -> forallb is_space ews = true -> envname_ok name = true ->
-    ok_items2 cx bps b (tr ++ end_str ews name ++ rest) = true ->
+    ok_items2 cx bps [] b (tr ++ end_str ews name ++ rest) = true ->
     skipn p s = unparse_items2 b ++ tr ++ end_str ews name ++ rest ->
     R (3 + 8 * length (unparse_items2 b)) (TEnvBody bps name p)
     = Ok (ONode (Some (gen_nodelist p (cs_acc (close_state bps (fst (absorb2 cx bps p cs_empty b)) tr
@@ -404,7 +501,8 @@ Section Sim.
     assert (S2 : R (1 + 8 * length (unparse_items2 b)) (TCollect bps (env_opts name) cs_empty p)
                  = Ok (OColl (close_state bps (fst A) tr pb)
                              (Some (mk TkEndEnv name (pb + length tr) pe tr [])) false false) (pb + length tr)).
-    { apply (IH b SZ bps (env_opts name) cs_empty p (tr ++ end_str ews name ++ rest) 1 _ SD (opts_ok_env bps name));
+    { apply (IH b SZ [] bps bps (env_opts name) cs_empty p (tr ++ end_str ews name ++ rest) 1 _ (frame_std cx bps SD)
+                (opts_ok_F bps _ (opts_ok_env bps name)));
         [discriminate|exact OKB|exact SK|exact S1]. }
     pose proof (rule_general_stop s cx _ bps (env_opts name) p _ _ _ eq_refl eq_refl eq_refl S2) as S3.
     cbn [mk tend] in S3.
@@ -413,26 +511,213 @@ Section Sim.
     rewrite S4. reflexivity.
   Qed.
 
-  Lemma ilen_spc2 ws chars args :
-    ilen2 (Spc2 ws chars args) = length ws + length chars + length (unparse_items2 args).
-  Proof. unfold ilen2, unparse_items2. cbn [unparse_item2]. rewrite !app_length. lia. Qed.
+  (** ** one argument *)
+  Definition is_abs (a : item2) : bool := match a with Abs2 => true | _ => false end.
+  Definition arg_fuel (a : item2) : nat := if is_abs a then 2 else 8 * ilen2 a.
 
-  Lemma ilen_env2 ws bws name args b tr ews :
-    ilen2 (Env2 ws bws name args b tr ews)
-    = length ws + length (begin_str bws name) + length (unparse_items2 args) + length (unparse_items2 b)
-      + length tr + length (end_str ews name).
-  Proof. unfold ilen2, unparse_items2. cbn [unparse_item2]. rewrite !app_length. lia. Qed.
+  Lemma peek_no_err ps pos ws c rest : Std cx ps -> ws_ok ws = true -> is_space c = false -> N.eqb c 92 = false ->
+    skipn pos s = ws ++ c :: rest -> forall e, impl_peek ps s pos <> TokErr e.
+  Proof.
+    intros SD W SP C SK e. pose proof (std_view_of cx ps SD) as V.
+    rewrite (impl_peek_dispatch ps s pos ws c rest W SK SP).
+    destruct (dispatch_no_err cx ps V s (pos + length ws) ws c rest (skipn_shift _ _ _ _ SK)) as [t DT].
+    - intros X. congruence.
+    - rewrite DT. discriminate.
+  Qed.
+
+  Lemma absent_no_err pos ch r : absent_tok pos ch r -> forall e, r <> TokErr e.
+  Proof. destruct r; cbn; [discriminate|discriminate|contradiction]. Qed.
+
+  Lemma arg_run2 n : SimN2 n -> forall ps spc a pa fa,
+    Std cx ps -> isize2 a <= S n -> ok_arg2 cx ps spc a fa = true ->
+    skipn pa s = unparse_item2 a ++ fa ->
+    parse_content false (R (arg_fuel a) (TStdArg (apply_adelta ps (a_delta spc)) (a_kind spc) pa))
+    = Ok (ONode (arg_node2 cx ps spc pa a)) (pa + ilen2 a)
+    /\ (forall e, impl_peek ps s pa <> TokErr e).
+  Proof.
+    intros IH ps spc a pa fa SD SZ OKA SK.
+    unfold ok_arg2 in OKA. unfold arg_node2.
+    set (aps := apply_adelta ps (a_delta spc)) in *.
+    assert (SDa : Std cx aps) by (apply std_adelta; exact SD).
+    assert (ENa : f_en_envs (ps_f aps) = f_en_envs (ps_f ps)) by apply en_envs_adelta.
+    destruct (a_kind spc) as [sp|o c opt sp|ch sp full|d] eqn:AK.
+    - (* a braced group *)
+      destruct a as [|ws b tr| | | | | | | |]; try discriminate.
+      apply andb_true_iff in OKA. destruct OKA as [AP OKI].
+      rewrite ok_item_grp2 in OKI. apply andb_true_iff in OKI. destruct OKI as [OKI OKB].
+      apply andb_true_iff in OKI. destruct OKI as [WA W].
+      cbn [isize2] in SZ. fold (lsize2 b) in SZ.
+      assert (SK' : skipn pa s = ws ++ 123%N :: unparse_items2 b ++ tr ++ 125%N :: fa).
+      { unfold unparse_items2. cbn [unparse_item2] in SK. rewrite <- !app_assoc in SK. cbn [app] in SK.
+        rewrite <- !app_assoc in SK. exact SK. }
+      split; [|apply (peek_no_err ps pa ws 123%N _ SD WA space_123 eq_refl SK')].
+      set (q0 := pa + length ws).
+      pose proof (skipn_shift _ _ _ _ SK') as SK0. fold q0 in SK0.
+      pose proof (grp_run2 n IH aps q0 ws b tr fa SDa ltac:(lia) W OKB SK0) as G.
+      assert (TP : forall q pre pp, Std cx q -> ws_ok pre = true -> skipn pp s = pre ++ 123%N :: unparse_items2 b ++ tr ++ 125%N :: fa ->
+                   impl_peek q s pp = TokOk (mk TkBraceOpen [123%N] (pp + length pre) (S (pp + length pre)) pre [])).
+      { intros q pre pp SQ WP SKp. rewrite (impl_peek_dispatch q s pp pre 123%N _ WP SKp space_123).
+        apply (dispatch_open cx q (std_view_of cx q SQ)). }
+      cbn [item_ws2]. fold q0.
+      replace (pa + ilen2 (Grp2 ws b tr)) with (q0 + 1 + length (unparse_items2 b) + length tr + 1)
+        by (rewrite ilen_grp2; unfold q0; lia).
+      unfold arg_fuel. cbn [is_abs]. rewrite ilen_grp2.
+      destruct ws as [|w ws'].
+      + pose proof (TP _ [] q0 (std_no_envs cx aps SDa) eq_refl SK0) as T. cbn [length] in T. rewrite Nat.add_0_r in T.
+        pose proof (rule_texpr s cx _ aps sp sp true q0 _ _ T G) as G2.
+        pose proof (rule_tstdarg s cx _ aps sp q0 _ _ G2) as G3.
+        unfold q0 in *. cbn [length] in *. rewrite Nat.add_0_r in *.
+        rewrite (lift _ _ _ _ G3); [reflexivity|discriminate|lia].
+      + cbn [is_nil] in AP. rewrite orb_false_r in AP. subst sp.
+        pose proof (TP _ (w :: ws') pa (std_no_envs cx aps SDa) WA SK') as T1. fold q0 in T1.
+        pose proof (TP _ [] q0 (std_no_envs cx aps SDa) eq_refl SK0) as T2. cbn [length] in T2. rewrite Nat.add_0_r in T2.
+        pose proof (rule_texpr_ws s cx _ aps true true pa w ws' _ _ T1 T2 G) as G2.
+        pose proof (rule_tstdarg s cx _ aps true pa _ _ G2) as G3.
+        rewrite (lift _ _ _ _ G3); [reflexivity|discriminate|cbn [length]; lia].
+    - (* a delimited argument *)
+      destruct o as [|oc' [|? ?]]; try (destruct a; discriminate); try (destruct a; destruct opt; discriminate).
+      destruct c as [|cc' [|? ?]]; try (destruct a; discriminate); try (destruct a; destruct opt; discriminate).
+      destruct a as [| | | | | | | |ws oc cc b tr|]; try discriminate; try (destruct opt; discriminate).
+      + (* written *)
+        assert (OKA' : N.eqb oc oc' && N.eqb cc cc' && delim_ok oc cc && (sp || is_nil ws) && ws_ok ws && ws_ok tr
+                       && ok_items2 cx aps [oc; cc] b (tr ++ cc :: fa) = true) by (destruct opt; exact OKA).
+        clear OKA. rename OKA' into OKA.
+        apply andb_true_iff in OKA. destruct OKA as [OKA OKB].
+        apply andb_true_iff in OKA. destruct OKA as [OKA W].
+        apply andb_true_iff in OKA. destruct OKA as [OKA WA].
+        apply andb_true_iff in OKA. destruct OKA as [OKA AP].
+        apply andb_true_iff in OKA. destruct OKA as [OKA D].
+        apply andb_true_iff in OKA. destruct OKA as [E1 E2].
+        apply N.eqb_eq in E1. apply N.eqb_eq in E2. subst oc' cc'.
+        destruct (delim_ok_facts oc cc D) as (PO & _). destruct (plain_start_facts oc PO) as (SPO & O92 & _).
+        cbn [isize2] in SZ. fold (lsize2 b) in SZ.
+        assert (SK' : skipn pa s = ws ++ oc :: unparse_items2 b ++ tr ++ cc :: fa).
+        { unfold unparse_items2. cbn [unparse_item2] in SK. rewrite <- !app_assoc in SK. cbn [app] in SK.
+          rewrite <- !app_assoc in SK. exact SK. }
+        split; [|apply (peek_no_err ps pa ws oc _ SD WA SPO O92 SK')].
+        pose proof (brk_run2 n IH aps pa ws oc cc b tr fa opt sp SDa D ltac:(lia) WA AP W OKB SK') as G.
+        cbn [item_ws2].
+        replace (pa + ilen2 (Brk2 ws oc cc b tr)) with (pa + length ws + 1 + length (unparse_items2 b) + length tr + 1)
+          by (rewrite ilen_brk2; lia).
+        unfold arg_fuel. cbn [is_abs]. rewrite ilen_brk2.
+        replace (8 * (length ws + 1 + length (unparse_items2 b) + length tr + 1))
+          with (S (8 * (length ws + 1 + length (unparse_items2 b) + length tr + 1) - 1)) by lia.
+        rewrite (rule_tstdarg_group s cx).
+        rewrite (lift _ _ _ _ G); [reflexivity|discriminate|lia].
+      + (* absent *)
+        destruct opt; [|discriminate].
+        apply andb_true_iff in OKA. destruct OKA as [D AB].
+        cbn [unparse_item2 app] in SK.
+        pose proof (peek_absent_brk cx aps oc' cc' s pa fa SDa D SK AB) as PA.
+        destruct (delim_ok_facts oc' cc' D) as (PO & _). destruct (plain_start_facts oc' PO) as (SPO & _).
+        split.
+        * unfold arg_fuel. cbn [is_abs item_ws2 length node_of2]. rewrite (rule_tstdarg_group s cx 1).
+          rewrite (rule_tgroup_absent s cx 0 aps oc' cc' sp pa PA). cbn [parse_content].
+          unfold ilen2. cbn [unparse_item2 length]. rewrite Nat.add_0_r. reflexivity.
+        * rewrite ENa in AB. apply (absent_no_err pa oc'). apply (peek_absent cx ps s pa fa oc' SD SK SPO AB).
+    - (* a marker character *)
+      destruct ch as [|ch [|? ?]]; try (destruct a; discriminate).
+      destruct a as [ws cs| | | | | | | | |]; try discriminate.
+      + (* written *)
+        destruct cs as [|c [|? ?]]; try discriminate.
+        apply andb_true_iff in OKA. destruct OKA as [OKA WA].
+        apply andb_true_iff in OKA. destruct OKA as [OKA AP].
+        apply andb_true_iff in OKA. destruct OKA as [E1 IN].
+        apply N.eqb_eq in E1. subst ch.
+        destruct (inert_facts cx c IN) as (SPC & C92 & _).
+        cbn [unparse_item2] in SK. rewrite <- app_assoc in SK. cbn [app] in SK.
+        split; [|apply (peek_no_err ps pa ws c _ SD WA SPC C92 SK)].
+        assert (T : impl_peek aps s pa = TokOk (mk TkChar [c] (pa + length ws) (S (pa + length ws)) ws [])).
+        { rewrite (impl_peek_dispatch aps s pa ws c fa WA SK SPC).
+          apply (dispatch_char cx aps (std_view_of cx aps SDa)). exact IN. }
+        unfold arg_fuel. cbn [is_abs item_ws2]. unfold ilen2. cbn [unparse_item2]. rewrite app_length. cbn [length].
+        replace (8 * (length ws + 1)) with (S (S (8 * (length ws + 1) - 2))) by lia.
+        rewrite (rule_tstdarg_chars s cx), (rule_tchars_present s cx _ aps c sp full pa ws T AP).
+        cbn [parse_content]. unfold chars_node. cbn [length].
+        replace (pa + (length ws + 1)) with (S (pa + length ws)) by lia. reflexivity.
+      + (* absent *)
+        apply andb_true_iff in OKA. destruct OKA as [PC AB].
+        destruct (plain_start_facts ch PC) as (SPC & _).
+        cbn [unparse_item2 app] in SK.
+        pose proof (peek_absent cx aps s pa fa ch SDa SK SPC AB) as PA.
+        split.
+        * unfold arg_fuel. cbn [is_abs item_ws2 length node_of2]. rewrite (rule_tstdarg_chars s cx 1).
+          rewrite (rule_tchars_absent s cx 0 aps ch sp full pa PA). cbn [parse_content].
+          unfold ilen2. cbn [unparse_item2 length]. rewrite Nat.add_0_r. reflexivity.
+        * rewrite ENa in AB. apply (absent_no_err pa ch). apply (peek_absent cx ps s pa fa ch SD SK SPC AB).
+    - destruct a; discriminate.
+  Qed.
+
+  (** ** the arguments of a call *)
+  Lemma ok_args_length2 ps args fol : forall l, ok_args2 cx ps args l fol = true -> length args = length l.
+  Proof.
+    induction args as [|a args IH]; intros [|spc l] H; try discriminate; [reflexivity|].
+    cbn [ok_args2] in H. apply andb_true_iff in H. destruct H as [_ H]. cbn [length]. f_equal. apply IH. exact H.
+  Qed.
+
+  Lemma nabs_cons a r : nabs (a :: r) = (if is_abs a then 1 else 0) + nabs r.
+  Proof. unfold nabs. cbn [filter]. destruct a; reflexivity. Qed.
+
+  Lemma ok_arg_len ps spc a fa : ok_arg2 cx ps spc a fa = true -> is_abs a = false -> 1 <= ilen2 a.
+  Proof.
+    unfold ok_arg2. intros H NA.
+    destruct a as [ws cs|ws b tr| | | | | | |ws oc cc b tr|]; try discriminate NA;
+      try (destruct (a_kind spc) as [?|[|? [|? ?]] [|? [|? ?]] [|] ?|[|? [|? ?]] ? ?|?]; discriminate H).
+    - destruct (a_kind spc) as [?|[|? [|? ?]] [|? [|? ?]] [|] ?|[|? [|? ?]] ? ?|?]; try discriminate H.
+      destruct cs as [|c [|? ?]]; try discriminate H. unfold ilen2. cbn [unparse_item2]. rewrite app_length. cbn. lia.
+    - rewrite ilen_grp2. lia.
+    - rewrite ilen_brk2. lia.
+  Qed.
+
+  Lemma lift_pc n n' t v p : parse_content false (R n t) = Ok v p -> n <= n' -> parse_content false (R n' t) = Ok v p.
+  Proof.
+    intros H L. destruct (R n t) eqn:E; try (rewrite (lift _ _ _ _ E) by (try discriminate; exact L); exact H).
+  Qed.
+
+  Lemma args_run2 n : SimN2 n -> forall args l ps acc pa fol,
+    Std cx ps -> lsize2 args <= n -> ok_args2 cx ps args l fol = true ->
+    skipn pa s = unparse_items2 args ++ fol ->
+    R (2 + nabs args + 8 * length (unparse_items2 args)) (TArgs ps l acc pa)
+    = Ok (OArgs (Some ([], acc ++ fst (arg_nodes2 cx ps pa args l)))) (pa + length (unparse_items2 args)).
+  Proof.
+    intros IH. induction args as [|a args IHa]; intros [|spc l] ps acc pa fol SD SZ OKA SK; try discriminate.
+    - cbn [unparse_items2 flat_map length arg_nodes2 fst]. rewrite app_nil_r. replace (pa + 0) with pa by lia.
+      reflexivity.
+    - cbn [ok_args2] in OKA. apply andb_true_iff in OKA. destruct OKA as [OKa OKR].
+      rewrite lsize_cons2 in SZ. pose proof (isize_pos2 a) as IP.
+      assert (SK' : skipn pa s = unparse_item2 a ++ unparse_items2 args ++ fol).
+      { unfold unparse_items2 in *. cbn [flat_map] in SK. rewrite <- app_assoc in SK. exact SK. }
+      destruct (arg_run2 n IH ps spc a pa _ SD ltac:(lia) OKa SK') as [A NE].
+      set (nd := arg_node2 cx ps spc pa a) in *.
+      set (pe := pa + ilen2 a) in *.
+      assert (SKr : skipn pe s = unparse_items2 args ++ fol) by (apply skipn_shift in SK'; exact SK').
+      pose proof (IHa l ps (acc ++ [nd]) pe fol SD ltac:(lia) OKR SKr) as B.
+      assert (L : length (unparse_items2 (a :: args)) = ilen2 a + length (unparse_items2 args)).
+      { unfold unparse_items2, ilen2. cbn [flat_map]. rewrite app_length. reflexivity. }
+      set (N0 := 1 + nabs (a :: args) + 8 * length (unparse_items2 (a :: args))).
+      replace (2 + nabs (a :: args) + 8 * length (unparse_items2 (a :: args))) with (S N0) by (unfold N0; lia).
+      assert (LA : arg_fuel a <= N0 /\ 2 + nabs args + 8 * length (unparse_items2 args) <= N0).
+      { unfold N0, arg_fuel. rewrite nabs_cons, L. destruct (is_abs a) eqn:AB; [lia|].
+        pose proof (ok_arg_len ps spc a _ OKa AB). lia. }
+      apply (rule_targs_cons' s cx N0 ps spc l acc pa nd pe _ NE).
+      + apply (lift_pc _ _ _ _ _ A). tauto.
+      + rewrite (lift _ _ _ _ B); [|discriminate|tauto].
+        cbn [arg_nodes2 fst snd]. fold nd. fold pe. rewrite <- app_assoc. cbn [app].
+        rewrite L. f_equal. unfold pe. lia.
+  Qed.
 
   (** ** one item *)
-  Lemma item_sim2 n : SimN2 n -> forall i ps o st pos fol k r,
-    isize2 i <= S n -> Std cx ps -> opts_ok ps o -> r <> OutOfFuel ->
-    ok_item2 cx ps i fol = true ->
+  Lemma item_sim2 n : SimN2 n -> forall i ex cps ps o st pos fol k r,
+    isize2 i <= S n -> Frame cx ex cps ps -> opts_okF cps ps o -> r <> OutOfFuel ->
+    ok_item2 cx ps ex i fol = true ->
     skipn pos s = unparse_item2 i ++ fol ->
-    R k (TCollect ps o (absorb_item2 cx ps pos st i) (pos + ilen2 i)) = r ->
-    R (k + 8 * ilen2 i) (TCollect ps o st pos) = r.
+    R k (TCollect cps o (absorb_item2 cx ps pos st i) (pos + ilen2 i)) = r ->
+    R (k + 8 * ilen2 i) (TCollect cps o st pos) = r.
   Proof.
-    intros IH i ps o st pos fol k r SZ SD OK NR OKI SK H. pose proof (std_view_of cx ps SD) as V.
-    destruct i as [ws cs|ws b tr|ws name post args|ws mk b tr|ws text post|ws mid|ws bws name args b tr ews|ws chars args]; cycle 4.
+    intros IH i ex cps ps o st pos fol k r SZ F OK NR OKI SK H.
+    pose proof F as [SD _]. pose proof (std_view_of cx ps SD) as V.
+    destruct i as [ws cs|ws b tr|ws name post args|ws mk b tr|ws text post|ws mid|ws bws name args b tr ews
+                   |ws chars args|ws oc cc b tr|]; cycle 4.
     - (* comment *)
       cbn [ok_item2] in OKI. apply andb_true_iff in OKI. destruct OKI as [OKI FO].
       apply andb_true_iff in OKI. destruct OKI as [OKI NLs].
@@ -445,14 +730,15 @@ Section Sim.
       assert (SK' : skipn pos s = ws ++ 37%N :: text ++ post ++ fol).
       { cbn [unparse_item2] in SK. rewrite <- !app_assoc in SK. cbn [app] in SK. rewrite <- !app_assoc in SK. exact SK. }
       pose proof (skipn_shift _ _ _ _ SK') as SK0.
-      assert (T : impl_peek ps s pos
+      assert (T : impl_peek cps s pos
                   = TokOk (Tokenizer.mk TkComment text (pos + length ws)
                               (pos + length ws + 1 + length text + length post) ws post)).
-      { rewrite (impl_peek_dispatch ps s pos ws 37%N _ W SK' space_37).
+      { rewrite (frame_peek1 cx ex cps ps s pos ws 37%N _ F SK' W space_37 (frame_ex_special cx ex cps ps 37%N F eq_refl)).
+        rewrite (impl_peek_dispatch ps s pos ws 37%N _ W SK' space_37).
         apply (dispatch_comment cx ps V s _ ws text post fol SK0 NT Wp EW). apply otest_hd_not. exact FO. }
       cbn [absorb_item2 item_ws2 node_of2] in H. rewrite ilen_cmt2 in H |- *.
       apply (lift (S k)); [|exact NR|lia].
-      apply (rule_comment s cx k ps o st pos ws text _ post r OK T).
+      apply (rule_commentF s cx k cps ps o st pos ws text _ post r OK T).
       replace (pos + (length ws + 1 + length text + length post))
         with (pos + length ws + 1 + length text + length post) in H by lia. exact H.
     - (* paragraph break *)
@@ -468,9 +754,18 @@ Section Sim.
       assert (SK' : skipn pos s = ws ++ 10%N :: mid ++ 10%N :: fol).
       { cbn [unparse_item2] in SK. rewrite <- !app_assoc in SK. cbn [app] in SK. rewrite <- !app_assoc in SK. exact SK. }
       pose proof (impl_peek_par cx ps s pos ws mid fol sp V SK' W NW WM (otest_hd_not _ _ FO) GS) as T.
+      assert (TF : impl_peek cps s pos = impl_peek ps s pos).
+      { apply (frame_peek cx ex cps ps s pos (ws ++ 10%N :: mid ++ [10%N]) fol F).
+        - rewrite <- app_assoc. cbn [app]. rewrite <- app_assoc. exact SK'.
+        - rewrite forallb_app. cbn [forallb]. rewrite forallb_app. cbn [forallb]. rewrite W, WM, space_10. reflexivity.
+        - apply otest_hd_not. exact FO.
+        - left. apply Nat.leb_le. rewrite count_c_app. cbn [count_c]. rewrite count_c_app. cbn [count_c].
+          rewrite N.eqb_refl. lia. }
+      rewrite <- TF in T.
       rewrite ilen_par2 in H |- *.
       apply (lift (S (k + 2))); [|exact NR|lia].
-      eapply (rule_specials s cx (k + 2) ps o st pos ws [10;10]%N _ sp _ _ r OK GS T).
+      eapply (rule_callF s cx (k + 2) cps ps o st pos ws TkSpecials [10;10]%N _ [] sp _ _ r OK
+                (or_intror (or_intror (conj eq_refl GS))) T).
       + replace (k + 2) with (S (S k)) by lia. apply rule_tcall_specials. exact SA.
       + apply (lift _ (k + 2)) in H; [|exact NR|lia].
         replace (pos + (length ws + 1 + length mid + 1)) with (pos + length ws + 1 + length mid + 1) in H by lia.
@@ -480,14 +775,16 @@ Section Sim.
         [|cbn [ok_item2] in OKI; rewrite GS, andb_false_r in OKI; discriminate].
       destruct (sp_args sp) as [l|lk] eqn:SA;
         [|cbn [ok_item2] in OKI; rewrite GS, SA, andb_false_r in OKI; discriminate].
-      rewrite (ok_item_env2 cx ps ws bws name args b tr ews fol sp l GS SA) in OKI.
+      rewrite (ok_item_env2 cx ps ex ws bws name args b tr ews fol sp l GS SA) in OKI.
       apply andb_true_iff in OKI. destruct OKI as [OKI OKA].
       apply andb_true_iff in OKA. destruct OKA as [OKA OKB].
+      apply andb_true_iff in OKA. destruct OKA as [OKA SL].
       apply andb_true_iff in OKI. destruct OKI as [OKI EN].
       apply andb_true_iff in OKI. destruct OKI as [OKI NM].
       apply andb_true_iff in OKI. destruct OKI as [OKI Wt].
       apply andb_true_iff in OKI. destruct OKI as [OKI WE].
       apply andb_true_iff in OKI. destruct OKI as [W WB].
+      unfold slots_ok in SL. apply Nat.leb_le in SL.
       cbn [isize2] in SZ. fold (lsize2 args) in SZ. fold (lsize2 b) in SZ.
       set (bps := env_body_state ps sp) in *.
       set (p0 := pos + length ws).
@@ -501,8 +798,9 @@ Section Sim.
                                       :: (unparse_items2 args ++ unparse_items2 b ++ FB)).
       { rewrite SK'. unfold begin_str, env_kw. cbn [app]. rewrite <- !app_assoc. cbn [app].
         rewrite <- !app_assoc. reflexivity. }
-      assert (T : impl_peek ps s pos = TokOk (Tokenizer.mk TkBeginEnv name p0 pa ws [])).
-      { rewrite (impl_peek_dispatch ps s pos ws 92%N _ W SK'' space_92). fold p0.
+      assert (T : impl_peek cps s pos = TokOk (Tokenizer.mk TkBeginEnv name p0 pa ws [])).
+      { rewrite (frame_peek1 cx ex cps ps s pos ws 92%N _ F SK'' W space_92 (frame_ex_special cx ex cps ps 92%N F eq_refl)).
+        rewrite (impl_peek_dispatch ps s pos ws 92%N _ W SK'' space_92). fold p0.
         rewrite (dispatch_env cx ps V s p0 ws true bws name _ (skipn_shift _ _ _ _ SK'') EN WB NM).
         unfold pa. rewrite len_begin_str. cbn [env_tok env_kw kw_begin length]. f_equal. unfold Tokenizer.mk. f_equal. lia. }
       pose proof (args_run2 n IH args l ps [] pa _ SD ltac:(lia) OKA SKa) as A. cbn [app] in A.
@@ -511,7 +809,7 @@ Section Sim.
       assert (SDb : Std cx bps) by (apply std_env_body; exact SD).
       assert (ENb : f_en_envs (ps_f bps) = true) by (unfold bps; rewrite en_envs_env_body; exact EN).
       pose proof (env_body_run2 n IH bps pb b tr ews name fol SDb ENb ltac:(lia) Wt WE NM OKB SKb) as B.
-      set (N0 := k + 4 + 8 * length (unparse_items2 args) + 8 * length (unparse_items2 b)).
+      set (N0 := k + 5 + nabs args + 8 * length (unparse_items2 args) + 8 * length (unparse_items2 b)).
       apply (lift _ N0) in A; [|discriminate|unfold N0; lia].
       apply (lift _ N0) in B; [|discriminate|unfold N0; lia].
       pose proof (rule_tcall_env s cx N0 ps name p0 pa sp l _ _ _ _ SA A B) as C.
@@ -521,7 +819,8 @@ Section Sim.
       rewrite absorb_pos2 in H.
       pose proof (len_begin_str bws name) as LB. pose proof (len_end_str ews name) as LE.
       apply (lift (S (S N0))); [|exact NR|rewrite ilen_env2; unfold N0; lia].
-      eapply (rule_env s cx (S N0) ps o st pos ws name pa sp _ _ r OK GS T).
+      eapply (rule_callF s cx (S N0) cps ps o st pos ws TkBeginEnv name pa [] sp _ _ r OK
+                (or_intror (or_introl (conj eq_refl GS))) T).
       + exact C.
       + apply (lift _ (S N0)) in H; [|exact NR|unfold N0; lia].
         rewrite ilen_env2 in H.
@@ -535,11 +834,14 @@ Section Sim.
         [|cbn [ok_item2] in OKI; rewrite GS, andb_false_r in OKI; discriminate].
       destruct (sp_args sp) as [l|lk] eqn:SA;
         [|cbn [ok_item2] in OKI; rewrite GS, SA, andb_false_r in OKI; discriminate].
-      rewrite (ok_item_spc2 cx ps ws chars args fol sp l GS SA) in OKI.
+      rewrite (ok_item_spc2 cx ps ex ws chars args fol sp l GS SA) in OKI.
       apply andb_true_iff in OKI. destruct OKI as [OKI OKA].
+      apply andb_true_iff in OKA. destruct OKA as [OKA SL].
       apply andb_true_iff in OKI. destruct OKI as [OKI TS].
       apply andb_true_iff in OKI. destruct OKI as [W PS].
+      unfold slots_ok in SL. apply Nat.leb_le in SL.
       destruct chars as [|c cr]; [discriminate|].
+      apply andb_true_iff in PS. destruct PS as [PS PX]. apply negb_true_iff in PX.
       destruct (test_specials (map fst (cx_specials cx)) ((c :: cr) ++ unparse_items2 args ++ fol) None)
         as [sc|] eqn:TS'; [|discriminate].
       apply pe_str_eqb_eq in TS. subst sc.
@@ -550,8 +852,9 @@ Section Sim.
       { unfold unparse_items2. cbn [unparse_item2] in SK. rewrite <- !app_assoc in SK. exact SK. }
       pose proof (skipn_shift _ _ _ _ SK') as SK0. fold p0 in SK0.
       pose proof (skipn_shift _ _ _ _ SK0) as SKa. fold pe in SKa.
-      assert (T : impl_peek ps s pos = TokOk (Tokenizer.mk TkSpecials (c :: cr) p0 pe ws [])).
+      assert (T : impl_peek cps s pos = TokOk (Tokenizer.mk TkSpecials (c :: cr) p0 pe ws [])).
       { destruct (plain_start_facts c PS) as (SP & _).
+        rewrite (frame_peek1 cx ex cps ps s pos ws c (cr ++ unparse_items2 args ++ fol) F SK' W SP PX).
         rewrite (impl_peek_dispatch ps s pos ws c (cr ++ unparse_items2 args ++ fol) W SK' SP). fold p0.
         apply (dispatch_specials cx ps V s p0 ws c cr _ PS TS'). }
       pose proof (args_run2 n IH args l ps [] pe fol SD ltac:(lia) OKA SKa) as A. cbn [app] in A.
@@ -559,20 +862,23 @@ Section Sim.
       cbn [absorb_item2 item_ws2] in H. fold p0 in H.
       rewrite (node_of_spc2 cx ps p0 ws (c :: cr) args sp l GS SA) in H. cbn zeta in H. fold pe in H.
       rewrite (arg_nodes_pos2 cx ps args pe l (ok_args_length2 ps args _ l OKA)) in H.
-      set (N0 := k + 2 + 8 * length (unparse_items2 args)).
-      apply (lift (S N0)); [|exact NR|rewrite ilen_spc2; unfold N0; cbn [length]; lia].
-      eapply (rule_specials s cx N0 ps o st pos ws (c :: cr) pe sp _ _ r OK GS T).
+      set (N0 := k + 3 + nabs args + 8 * length (unparse_items2 args)).
+      apply (lift (S N0)); [|exact NR|rewrite ilen_spc2; unfold N0; lia].
+      eapply (rule_callF s cx N0 cps ps o st pos ws TkSpecials (c :: cr) pe [] sp _ _ r OK
+                (or_intror (or_intror (conj eq_refl GS))) T).
       + apply (lift _ N0) in C; [exact C|discriminate|unfold N0; lia].
       + apply (lift _ N0) in H; [|exact NR|unfold N0; lia].
         rewrite ilen_spc2 in H.
         replace (pos + (length ws + length (c :: cr) + length (unparse_items2 args)))
           with (pe + length (unparse_items2 args)) in H by (unfold pe, p0; lia). exact H.
+    - (* a delimited argument is not an item *) discriminate.
+    - (* an absent argument is not an item *) discriminate.
     - (* text *)
       cbn [ok_item2] in OKI. apply andb_true_iff in OKI. destruct OKI as [OKI IN].
       apply andb_true_iff in OKI. destruct OKI as [W NE]. destruct cs as [|c cs]; [discriminate|].
       cbn [unparse_item2] in SK. rewrite <- app_assoc in SK.
       unfold ilen2 in *. cbn [unparse_item2 absorb_item2] in *.
-      apply (text_sim2 ps o r k st pos ws c cs fol SD OK NR W IN SK H).
+      apply (text_sim2 ex cps ps o r k st pos ws c cs fol F OK NR W IN SK H).
     - (* group *)
       rewrite ok_item_grp2 in OKI. apply andb_true_iff in OKI. destruct OKI as [OKI OKB].
       apply andb_true_iff in OKI. destruct OKI as [W Wt].
@@ -580,15 +886,16 @@ Section Sim.
       assert (SK' : skipn pos s = ws ++ 123%N :: unparse_items2 b ++ tr ++ 125%N :: fol).
       { unfold unparse_items2. cbn [unparse_item2] in SK. rewrite <- !app_assoc in SK. cbn [app] in SK.
         rewrite <- !app_assoc in SK. exact SK. }
-      assert (T : impl_peek ps s pos
+      assert (T : impl_peek cps s pos
                   = TokOk (mk TkBraceOpen [123%N] (pos + length ws) (S (pos + length ws)) ws [])).
-      { rewrite (impl_peek_dispatch ps s pos ws 123%N _ W SK' space_123). apply (dispatch_open cx ps V). }
+      { rewrite (frame_peek1 cx ex cps ps s pos ws 123%N _ F SK' W space_123 (frame_ex_special cx ex cps ps 123%N F eq_refl)).
+        rewrite (impl_peek_dispatch ps s pos ws 123%N _ W SK' space_123). apply (dispatch_open cx ps V). }
       pose proof (skipn_shift _ _ _ _ SK') as SK0.
       pose proof (grp_run2 n IH ps (pos + length ws) ws b tr fol SD ltac:(lia) Wt OKB SK0) as G.
       cbn [absorb_item2 item_ws2] in H.
       set (N0 := k + 3 + 8 * length (unparse_items2 b)).
       apply (lift (S N0)); [|exact NR|rewrite ilen_grp2; unfold N0; lia].
-      eapply (rule_group s cx N0 ps o st pos ws _ _ r OK T).
+      eapply (rule_groupF s cx N0 cps ps o st pos ws _ _ r OK T).
       + apply (lift _ N0) in G; [exact G|discriminate|unfold N0; lia].
       + apply (lift _ N0) in H; [|exact NR|unfold N0; lia].
         rewrite ilen_grp2 in H.
@@ -599,11 +906,13 @@ Section Sim.
         [|cbn [ok_item2] in OKI; rewrite GS, andb_false_r in OKI; discriminate].
       destruct (sp_args sp) as [l|lk] eqn:SA;
         [|cbn [ok_item2] in OKI; rewrite GS, SA, andb_false_r in OKI; discriminate].
-      rewrite (ok_item_mac2 cx ps ws name post args _ sp l GS SA) in OKI.
+      rewrite (ok_item_mac2 cx ps ex ws name post args _ sp l GS SA) in OKI.
       apply andb_true_iff in OKI. destruct OKI as [OKI OKA].
       apply andb_true_iff in OKA. destruct OKA as [OKA FO].
+      apply andb_true_iff in OKA. destruct OKA as [OKA SL].
       apply andb_true_iff in OKI. destruct OKI as [OKI NM].
       apply andb_true_iff in OKI. destruct OKI as [W Wp].
+      unfold slots_ok in SL. apply Nat.leb_le in SL.
       cbn [isize2] in SZ. fold (lsize2 args) in SZ.
       set (p0 := pos + length ws).
       set (pe := p0 + 1 + length name + length post).
@@ -611,8 +920,9 @@ Section Sim.
       { unfold unparse_items2. cbn [unparse_item2] in SK. rewrite <- !app_assoc in SK. cbn [app] in SK.
         rewrite <- !app_assoc in SK. exact SK. }
       pose proof (skipn_shift _ _ _ _ SK') as SK0. fold p0 in SK0.
-      assert (T : impl_peek ps s pos = TokOk (mk TkMacro name p0 pe ws post)).
-      { destruct name as [|c nm]; [discriminate|]. cbn [name_ok] in NM. cbn [mac_follow_ok] in FO.
+      assert (T : impl_peek cps s pos = TokOk (mk TkMacro name p0 pe ws post)).
+      { rewrite (frame_peek1 cx ex cps ps s pos ws 92%N _ F SK' W space_92 (frame_ex_special cx ex cps ps 92%N F eq_refl)).
+        destruct name as [|c nm]; [discriminate|]. cbn [name_ok] in NM. cbn [mac_follow_ok] in FO.
         cbn [app] in SK', SK0.
         rewrite (impl_peek_dispatch ps s pos ws 92%N _ W SK' space_92). fold p0.
         destruct (is_alpha c) eqn:AC.
@@ -639,10 +949,11 @@ Section Sim.
       cbn [absorb_item2 item_ws2] in H. fold p0 in H.
       rewrite (node_of_mac2 cx ps p0 ws name post args sp l GS SA) in H. cbn zeta in H. fold pe in H.
       rewrite (arg_nodes_pos2 cx ps args pe l (ok_args_length2 ps args _ l OKA)) in H.
-      set (N0 := k + 2 + 8 * length (unparse_items2 args)).
+      set (N0 := k + 3 + nabs args + 8 * length (unparse_items2 args)).
       assert (NL : 1 <= length name) by (destruct name; [discriminate|cbn; lia]).
       apply (lift (S N0)); [|exact NR|rewrite ilen_mac2; unfold N0; lia].
-      eapply (rule_macro s cx N0 ps o st pos ws name pe post sp _ _ r OK GS T).
+      eapply (rule_callF s cx N0 cps ps o st pos ws TkMacro name pe post sp _ _ r OK
+                (or_introl (conj eq_refl GS)) T).
       + apply (lift _ N0) in C; [exact C|discriminate|unfold N0; lia].
       + apply (lift _ N0) in H; [|exact NR|unfold N0; lia].
         rewrite ilen_mac2 in H.
@@ -660,21 +971,26 @@ Section Sim.
       assert (DL' : mk = MDollar -> hd_not (fun c => N.eqb c 36) (unparse_items2 b ++ tr ++ m_close mk ++ fol)).
       { intros ->. rewrite app_assoc. destruct (unparse_items2 b ++ tr) as [|c x]; [discriminate|].
         cbn [app hd_not]. apply negb_true_iff in DL. exact DL. }
-      assert (T : impl_peek ps s pos
+      assert (T : impl_peek cps s pos
                   = TokOk (PLV.Tok.Tokenizer.mk (m_tok mk) (m_open mk) (pos + length ws)
                               (pos + length ws + length (m_open mk)) ws [])).
       { pose proof (dispatch_math_open cx ps V s (pos + length ws) ws mk _ M DL') as D.
         destruct mk; cbn [m_open app] in SK'.
-        - rewrite (impl_peek_dispatch ps s pos ws 36%N _ W SK' space_36). exact D.
-        - rewrite (impl_peek_dispatch ps s pos ws 92%N _ W SK' space_92). exact D.
-        - rewrite (impl_peek_dispatch ps s pos ws 92%N _ W SK' space_92). exact D.
-        - rewrite (impl_peek_dispatch ps s pos ws 36%N _ W SK' space_36). exact D. }
+        - rewrite (frame_peek1 cx ex cps ps s pos ws 36%N _ F SK' W space_36 (frame_ex_special cx ex cps ps 36%N F eq_refl)).
+          rewrite (impl_peek_dispatch ps s pos ws 36%N _ W SK' space_36). exact D.
+        - rewrite (frame_peek1 cx ex cps ps s pos ws 92%N _ F SK' W space_92 (frame_ex_special cx ex cps ps 92%N F eq_refl)).
+          rewrite (impl_peek_dispatch ps s pos ws 92%N _ W SK' space_92). exact D.
+        - rewrite (frame_peek1 cx ex cps ps s pos ws 92%N _ F SK' W space_92 (frame_ex_special cx ex cps ps 92%N F eq_refl)).
+          rewrite (impl_peek_dispatch ps s pos ws 92%N _ W SK' space_92). exact D.
+        - rewrite (frame_peek1 cx ex cps ps s pos ws 36%N _ F SK' W space_36 (frame_ex_special cx ex cps ps 36%N F eq_refl)).
+          rewrite (impl_peek_dispatch ps s pos ws 36%N _ W SK' space_36). exact D. }
       pose proof (math_run2 n IH ps (pos + length ws) ws mk b tr fol SD M ltac:(lia) Wt OKB DL' SK0) as G.
       rewrite node_of_math2 in G. cbn zeta in G.
       cbn [absorb_item2 item_ws2] in H. rewrite node_of_math2 in H. cbn zeta in H.
       set (N0 := k + 3 + 8 * length (unparse_items2 b)).
+      assert (MC : f_in_math (ps_f cps) = false) by (rewrite (frame_in_math cx ex cps ps F); exact M).
       apply (lift (S N0)); [|exact NR|rewrite ilen_math2; unfold N0; destruct mk; cbn [m_open length]; lia].
-      eapply (rule_math s cx N0 ps o st pos ws mk _ _ r OK (proj1 SD) M T).
+      eapply (rule_mathF s cx N0 cps ps o st pos ws mk _ _ r OK (frame_good cx ex cps ps F) MC T).
       + apply (lift _ N0) in G; [exact G|discriminate|unfold N0; lia].
       + apply (lift _ N0) in H; [|exact NR|unfold N0; lia].
         rewrite ilen_math2 in H.
@@ -686,13 +1002,13 @@ Section Sim.
   (** ** the simulation *)
   Theorem items_sim2 : forall n, SimN2 n.
   Proof.
-    assert (NIL : forall ps o st pos k r,
-              R k (TCollect ps o (fst (absorb2 cx ps pos st [])) (pos + length (unparse_items2 []))) = r ->
-              R (k + 8 * length (unparse_items2 [])) (TCollect ps o st pos) = r).
-    { intros ps o st pos k r H. cbn in H |- *. rewrite Nat.add_0_r in H |- *. exact H. }
-    induction n as [|n IH]; intros l SZ ps o st pos fol k r SD OK NR OKL SK H.
-    - destruct l as [|i l]; [apply NIL; exact H|]. rewrite lsize_cons2 in SZ. pose proof (isize_pos2 i). lia.
-    - destruct l as [|i l]; [apply NIL; exact H|]. rewrite lsize_cons2 in SZ. pose proof (isize_pos2 i) as IP.
+    assert (NIL : forall cps ps o st pos k r,
+              R k (TCollect cps o (fst (absorb2 cx ps pos st [])) (pos + length (unparse_items2 []))) = r ->
+              R (k + 8 * length (unparse_items2 [])) (TCollect cps o st pos) = r).
+    { intros cps ps o st pos k r H. cbn in H |- *. rewrite Nat.add_0_r in H |- *. exact H. }
+    induction n as [|n IH]; intros l SZ ex cps ps o st pos fol k r F OK NR OKL SK H.
+    - destruct l as [|i l]; [apply (NIL cps ps); exact H|]. rewrite lsize_cons2 in SZ. pose proof (isize_pos2 i). lia.
+    - destruct l as [|i l]; [apply (NIL cps ps); exact H|]. rewrite lsize_cons2 in SZ. pose proof (isize_pos2 i) as IP.
       rewrite ok_items_cons2 in OKL. apply andb_true_iff in OKL. destruct OKL as [OKI OKL].
       assert (L : length (unparse_items2 (i :: l)) = ilen2 i + length (unparse_items2 l)).
       { unfold unparse_items2, ilen2. cbn [flat_map]. rewrite app_length. reflexivity. }
@@ -701,11 +1017,23 @@ Section Sim.
       pose proof (skipn_shift _ _ _ _ SK') as SKl. fold (ilen2 i) in SKl.
       rewrite absorb_cons2 in H. rewrite L in H |- *.
       replace (pos + (ilen2 i + length (unparse_items2 l))) with (pos + ilen2 i + length (unparse_items2 l)) in H by lia.
-      pose proof (IH l ltac:(lia) ps o (absorb_item2 cx ps pos st i) (pos + ilen2 i) fol k r SD OK NR OKL SKl H) as H2.
-      pose proof (item_sim2 n IH i ps o st pos (unparse_items2 l ++ fol) _ r ltac:(lia) SD OK NR OKI SK' H2) as H3.
+      pose proof (IH l ltac:(lia) ex cps ps o (absorb_item2 cx ps pos st i) (pos + ilen2 i) fol k r F OK NR OKL SKl H) as H2.
+      pose proof (item_sim2 n IH i ex cps ps o st pos (unparse_items2 l ++ fol) _ r ltac:(lia) F OK NR OKI SK' H2) as H3.
       apply (lift _ _ _ _ H3 NR). lia.
   Qed.
 End Sim.
+
+(** the simulation for the collectors whose children are parsed in their own state *)
+Corollary items_sim2_std s cx l ps o st pos fol k r :
+  Std cx ps -> opts_ok ps o -> r <> OutOfFuel ->
+  ok_items2 cx ps [] l fol = true ->
+  skipn pos s = unparse_items2 l ++ fol ->
+  run s false cx k (TCollect ps o (fst (absorb2 cx ps pos st l)) (pos + length (unparse_items2 l))) = r ->
+  run s false cx (k + 8 * length (unparse_items2 l)) (TCollect ps o st pos) = r.
+Proof.
+  intros SD OK. apply (items_sim2 s cx (lsize2 l) l (le_n _) [] ps ps o st pos fol k r (frame_std cx ps SD)
+                         (opts_ok_F ps o OK)).
+Qed.
 
 (** * The round-trip theorem *)
 Theorem parse_unparse2 : forall cx d,
@@ -735,8 +1063,8 @@ Proof.
       apply skipn_shift in SKe'. exact SKe'. }
   assert (NR : Ok (OColl (eos_state ps (fst A) tr pe) None false true) (pe + length tr) <> OutOfFuel)
     by discriminate.
-  pose proof (items_sim2 s cx (lsize2 items) items (le_n _) ps top_opts cs_empty 0 tr 2 _ SD (opts_ok_top ps)
-                NR OKL SK E) as S1.
+  pose proof (items_sim2 s cx (lsize2 items) items (le_n _) [] ps ps top_opts cs_empty 0 tr 2 _ (frame_std cx ps SD)
+                (opts_ok_F ps _ (opts_ok_top ps)) NR OKL SK E) as S1.
   pose proof (rule_general_top s cx _ ps _ _ S1) as S2.
   assert (LS : length s = length (unparse_items2 items) + length tr) by (unfold s, unparse2; apply app_length).
   unfold parse_top. fold s ps.
